@@ -207,6 +207,17 @@ fn run_c11(seed: u64, tier: Tier) -> i32 {
           // did not reproduce alone: not attributable, not reported
           eprintln!("note: death of run {} ({}) did not reproduce in isolation", d.idx, d.how);
         }
+        (Some(op), "hang") => {
+          // a time-out is only believed when the operation in flight, executed alone with a generous
+          // watchdog, still does not return (machine load must not raise an alarm)
+          let w = serde_json::json!({"bytes": op});
+          let r = exec_isolated(check, &w, 90);
+          if r.how == "timeout" {
+            all.push((d.idx, Violation { class: "hang".into(), signature: "decode_cbor".into(), world: w, detail: format!("decode_cbor did not return within 90 s, alone, on {} bytes", op.len() / 2) }));
+          } else {
+            eprintln!("note: run {} timed out in its batch but its last operation returns when executed alone", d.idx);
+          }
+        }
         (Some(op), class) => {
           all.push((
             d.idx,
